@@ -25,7 +25,7 @@ CHECKS.update({
 
 CHECKS.update({
  "C04": dict(cat="fault_enumeration", tech="property-based fault injection (proptest): forged execution traces proven with the real prover, native verifier verdict vs independent validity oracle",
-   text="1-2 generated fault operators (table cell, slot everywhere, slot+propagation, constant, recompose coefficient, input change as control) are applied to honest execution traces of random programs in 7 field configurations; the forged traces are proven in the release profile (no prover self-check) and verified natively. Accepted implies valid (one value per slot, exact constants, every ALU relation, recompose rows). ~5000 forged proofs per quick run; rejected forgeries are the negative control. Two further sub-checks: direct permutation programs with one fault (table cell, public value, chain-start accumulator, dishonest re-execution); MMCS opening circuits with one opened value changed while the Merkle-mode rows keep the honest path (forged opening at the proof level: listed finding).",
+   text="1-2 generated fault operators (table cell, slot everywhere, slot+propagation, constant, recompose coefficient, input change as control) are applied to honest execution traces of random programs in 7 field configurations; the forged traces are proven in the release profile (no prover self-check) and verified natively. Accepted implies valid (one value per slot, exact constants, every ALU relation, recompose rows). ~5000 forged proofs per quick run; rejected forgeries are the negative control. Two further sub-checks: direct permutation programs with one fault (table cell, public value, chain-start accumulator, dishonest re-execution); MMCS opening circuits (arity 2 and arity 4) with one opened value changed while the Merkle-mode rows keep the honest path (forged opening at the proof level: accepted for arity-2 tables, a listed finding; rejected for arity-4 tables).",
    note="Trusted: forge::trace_validity (written from the Op documentation); STARK soundness error negligible (100 FRI queries). Cells of packed Horner rows that never reach the committed matrix are normalised. Known classes (constant values in the main trace, standard recompose coefficients unbound) are excluded by construction and replayed.", ref="DESIGN.md §3 C04", engine="E1+E2"),
  "C05": dict(cat="exploration", tech="model-based property testing (proptest): random challenger op histories, native DuplexChallenger as the model",
    text="Random histories (observe base/ext/slices, sample base/ext/bits, PoW valid/invalid, clear; 0-60 ops, thorough 300) over 14 challenger configurations x recompose table on/off are run against the native challenger and the in-circuit challenger; every sampled target must equal the native sample and run() must succeed iff every PoW check is natively valid. All sequences of length <= 3 over a 10-symbol alphabet are enumerated.",
